@@ -266,10 +266,22 @@ pub struct GenCfg {
     pub cap_paths: bool,
     /// version must be renderable as YYYY-MM-DD
     pub text_version: bool,
+    /// 0: HP:118 is a child of HP:1; 1: one level deeper (1 <- x <- 118); 2: detached (no parent)
+    pub pheno_root_place: u8,
+    /// some record is annotated to more than 30 terms (beyond the inline storage of a group)
+    pub fat_record: bool,
 }
 
 impl GenCfg {
     pub fn draw(r: &mut Prng) -> GenCfg {
+        let mut c = Self::draw0(r);
+        if c.fat_record {
+            c.n_terms = c.n_terms.max(36);
+        }
+        c
+    }
+
+    fn draw0(r: &mut Prng) -> GenCfg {
         let big = r.chance(1, 40);
         GenCfg {
             std_roots: r.chance(3, 4),
@@ -293,6 +305,8 @@ impl GenCfg {
             text_safe: true,
             cap_paths: true,
             text_version: true,
+            pheno_root_place: if r.chance(1, 12) { r.range(1, 2) as u8 } else { 0 },
+            fat_record: r.chance(1, 16),
         }
     }
 }
@@ -399,15 +413,29 @@ fn pick_ids(r: &mut Prng, n: usize, space: u8, with_std: bool) -> Vec<u32> {
 /// Generates the abstract DAG on indices (edges child -> parent with parent < child),
 /// then maps indices to ids.
 pub fn gen_facts(r: &mut Prng, cfg: &GenCfg) -> FactSet {
-    let n = cfg.n_terms.max(if cfg.std_roots { 2 } else { 1 });
+    // index 0 = HP:1; HP:118 sits at `pheno`: index 1 (child of HP:1, or detached) or index 2 (one level deeper,
+    // below an intermediate top-level term at index 1)
+    let place = if cfg.std_roots { cfg.pheno_root_place } else { 0 };
+    let pheno: usize = if place == 1 { 2 } else { 1 };
+    let first = if cfg.std_roots { pheno + 1 } else { 1 };
+    let n = cfg.n_terms.max(first);
     let mut parents: Vec<BTreeSet<usize>> = vec![BTreeSet::new(); n];
-    let first = if cfg.std_roots { 2 } else { 1 };
-    if cfg.std_roots {
-        parents[1].insert(0);
-    }
-    // with std roots: a few top-level branches under 0 (modifier roots) and under 1 (categories)
+    // with std roots: a few top-level branches under 0 (modifier roots) and under HP:118 (categories)
     let mut top_mod: Vec<usize> = vec![];
     let mut top_cat: Vec<usize> = vec![];
+    if cfg.std_roots {
+        match place {
+            0 => {
+                parents[1].insert(0);
+            }
+            1 => {
+                parents[1].insert(0);
+                top_mod.push(1);
+                parents[2].insert(1);
+            }
+            _ => {} // detached: HP:118 has no parent
+        }
+    }
     let mut i = first;
     if cfg.std_roots {
         let nm = r.urange(0, 3).min(n.saturating_sub(i));
@@ -418,9 +446,20 @@ pub fn gen_facts(r: &mut Prng, cfg: &GenCfg) -> FactSet {
         }
         let nc = r.urange(0, 4).min(n.saturating_sub(i));
         for _ in 0..nc {
-            parents[i].insert(1);
+            parents[i].insert(pheno);
             top_cat.push(i);
             i += 1;
+        }
+    }
+    // a category that lies below another category / modifier root (redundant top-level link)
+    if cfg.std_roots && r.chance(1, 6) {
+        let tops: Vec<usize> = top_mod.iter().chain(top_cat.iter()).copied().collect();
+        if tops.len() >= 2 {
+            let c = *r.pick(&tops);
+            let lower: Vec<usize> = tops.iter().copied().filter(|t| *t < c).collect();
+            if !lower.is_empty() {
+                parents[c].insert(*r.pick(&lower));
+            }
         }
     }
     let body_start = i;
@@ -572,11 +611,16 @@ pub fn gen_facts(r: &mut Prng, cfg: &GenCfg) -> FactSet {
         _ => r.shuffle(&mut other),
     }
     let mut ids: Vec<u32> = Vec::with_capacity(n);
-    if cfg.std_roots {
-        ids.push(1);
-        ids.push(118);
+    let mut rest = other.into_iter();
+    for idx in 0..n {
+        if cfg.std_roots && idx == 0 {
+            ids.push(1);
+        } else if cfg.std_roots && idx == pheno {
+            ids.push(118);
+        } else {
+            ids.push(rest.next().expect("enough ids"));
+        }
     }
-    ids.extend(other);
 
     let long_budget = if cfg.names >= 3 { r.urange(1, 3) } else { 0 };
     let mut long_left = long_budget;
@@ -603,7 +647,7 @@ pub fn gen_facts(r: &mut Prng, cfg: &GenCfg) -> FactSet {
         let k = r.urange(1, (n / 5).max(1));
         for _ in 0..k {
             let idx = r.usize_below(n);
-            if cfg.std_roots && idx < 2 {
+            if cfg.std_roots && (idx == 0 || idx == pheno) {
                 continue;
             }
             terms[idx].obsolete = r.chance(4, 5);
@@ -669,6 +713,16 @@ pub fn gen_facts(r: &mut Prng, cfg: &GenCfg) -> FactSet {
                 }
             }
             out.push(Rec { id, name, terms: ts.into_iter().collect() });
+        }
+        if cfg.fat_record && n >= 33 && !out.is_empty() {
+            // one record annotated to more than 30 terms
+            let k = r.usize_below(out.len());
+            let want = r.urange(31, n.min(48));
+            let mut ts: BTreeSet<u32> = out[k].terms.iter().copied().collect();
+            while ts.len() < want {
+                ts.insert(ids[r.usize_below(n)]);
+            }
+            out[k].terms = ts.into_iter().collect();
         }
         if r.chance(1, 2) {
             r.shuffle(&mut out);
